@@ -34,29 +34,28 @@ def dropUnderscores : Str → Bool → Option Str
     else none
   | c :: cs, _ => (dropUnderscores cs true).map (c :: ·)
 
-/-- `int(s)` / `int(s, 2)` on ASCII input: surrounding whitespace, optional sign, digits with
-    single underscores; `0b` prefix for base 2.  `none` = ValueError. -/
-def pyIntBase (b : Nat) (s : Str) : Option Int :=
-  let t := stripC s isAsciiSpace
-  let (neg, t) := match t with
-    | '-' :: r => (true, r)
-    | '+' :: r => (false, r)
-    | r => (false, r)
-  let t := if b == 2 then
-      (match t with
-       | '0' :: 'b' :: r => (match r with | '_' :: r' => r' | _ => r)
-       | '0' :: 'B' :: r => (match r with | '_' :: r' => r' | _ => r)
-       | r => r)
-    else t
+/-- optional sign in front of the digits -/
+def splitSign (t : Str) : Bool × Str :=
   match t with
-  | [] => none
-  | _ =>
-    match dropUnderscores t false with
-    | none => none
-    | some ds =>
-      match digitsVal b ds 0 with
-      | none => none
-      | some v => some (if neg then - (v : Int) else (v : Int))
+  | '-' :: r => (true, r)
+  | '+' :: r => (false, r)
+  | r => (false, r)
+
+/-- optional `0b` / `0B` (and one underscore after it) for base 2 -/
+def stripBinPrefix (t : Str) : Str :=
+  match t with
+  | '0' :: 'b' :: r => (match r with | '_' :: r' => r' | _ => r)
+  | '0' :: 'B' :: r => (match r with | '_' :: r' => r' | _ => r)
+  | r => r
+
+/-- `int(s)` / `int(s, 2)`: surrounding whitespace, optional sign, digits with single underscores;
+    `0b` prefix for base 2.  `none` = ValueError. -/
+def pyIntBase (b : Nat) (s : Str) : Option Int :=
+  let p := splitSign (stripC s isAsciiSpace)
+  let t := if b == 2 then stripBinPrefix p.2 else p.2
+  if t.isEmpty then none
+  else (dropUnderscores t false).bind fun ds =>
+    (digitsVal b ds 0).map fun v => if p.1 then - (v : Int) else (v : Int)
 
 def pyInt (s : Str) : R Int :=
   match pyIntBase 10 s with
